@@ -8,7 +8,7 @@ package main
 // (2) non-elevator alerts over EVERY Mercury priority value 1..40 plus unknown / malformed /
 // absent ones x id prefix {lmm:planned_work.., lmm:alert.., other} x Mercury alert extension
 // {absent, present} x own cause/effect x second selector {none, same, other priority} x skip
-// flag x metadata flag; (3) mixed feeds x all 24 configurations. A fresh extension per parse.
+// flag x metadata flag; (3) mixed feeds x all 24 configurations. A fresh extension per feed, and the same extension for a second parse of the feed.
 // Oracle: reference grouping by policy (ids as documented, cause/effect, informed stops as a
 // set), priority->effect and timetabled-no-service tables transcribed here, pass-through =
 // equality with the extension-free parse.
@@ -188,11 +188,18 @@ func c17Elevators(maxLen int) Harness {
 			m.Entity = append(m.Entity, plainAlertEntity("plain-1"))
 		}
 		opts := nyctalerts.ExtensionOpts{ElevatorAlertsDeduplicationPolicy: policy, ElevatorAlertsInformUsingStationIDs: useStation}
-		desc := fmt.Sprintf("policy=%s stationIDs=%v alerts=%v plainAt=%d", policy, useStation, ids, plainAt)
+		// the groups are per feed: when the same extension value parses the feed a second time,
+		// the second result must satisfy the same oracle (0: one parse; 1: check the second parse)
+		secondParse := c.Free("check_second_parse_with_the_same_extension", 2) == 1
+		desc := fmt.Sprintf("policy=%s stationIDs=%v alerts=%v plainAt=%d secondParse=%v", policy, useStation, ids, plainAt, secondParse)
 		b := marshalFeed(m)
 		groups := refElevatorGroups(seq, policy, useStation)
 		c.Input(hash64(string(b)+desc), n >= 2, func() string { return desc + "\n" + feedText(m) })
-		r, err, ok := parseRT(c, b, &gtfs.ParseRealtimeOptions{Extension: nyctalerts.Extension(opts)})
+		ext := nyctalerts.Extension(opts)
+		r, err, ok := parseRT(c, b, &gtfs.ParseRealtimeOptions{Extension: ext})
+		if ok && err == nil && secondParse {
+			r, err, ok = parseRT(c, append([]byte(nil), b...), &gtfs.ParseRealtimeOptions{Extension: ext})
+		}
 		if !ok {
 			return
 		}
@@ -514,7 +521,7 @@ func init() {
 	register(&Check{
 		ID:    "C17",
 		Level: "model_checking",
-		Rule: "(1) all sequences with repetition of <= 3 (thorough <= 5) elevator alerts over 12 ids x position of an optional plain alert x 3 policies x station-id flag; (2) every Mercury priority 1..40 + 6 unknown/malformed/absent sort orders x second selector {none, same, DELAYS, NO_OVERNIGHT} x 3 id prefixes x Mercury alert extension x own cause/effect x skip x metadata; (3) mixed feeds (2 elevator alerts, Mercury alert, plain alert, trip update) x 3 orders x all 24 option combinations; fresh extension per parse; " +
+		Rule: "(1) all sequences with repetition of <= 3 (thorough <= 5) elevator alerts over 12 ids x position of an optional plain alert x 3 policies x station-id flag x {first parse, second parse with the same extension value}; (2) every Mercury priority 1..40 + 6 unknown/malformed/absent sort orders x second selector {none, same, DELAYS, NO_OVERNIGHT} x 3 id prefixes x Mercury alert extension x own cause/effect x skip x metadata; (3) mixed feeds (2 elevator alerts, Mercury alert, plain alert, trip update) x 3 orders x all 24 option combinations; fresh extension per parse; " +
 			"non-trivial = distinct (message, options); oracle = reference grouping / tables + differential against the extension-free parse",
 		Assumptions: []string{"metadata is expected iff requested and the alert carries the Mercury alert extension", "with several different priorities in one alert the effect must be that of one of them (which one is unspecified); such an alert may be dropped when any of them is a timetabled no-service priority", "TZ=UTC so that the metadata JSON is reproducible"},
 		Scenarios: func(tier string) []*Scenario {
